@@ -84,3 +84,7 @@ impl Permissioner {
             .retain(|(id, _)| *id != user_id);
     }
 }
+
+#[cfg(kani)]
+#[path = "/verif/harness/server/hooks/permissioner.rs"]
+pub(crate) mod verif_hook;
